@@ -219,7 +219,8 @@ def examine(prop, head, labels, g):
 def run_h1(prop, tier, seed, report):
     """returns list of violation dicts"""
     count, maxlen = H1_BUDGET[tier]
-    stats, mism = K.h1_suite(seed, count, maxlen, shards=16 if tier == "thorough" else 8, extra_hist=corpus_text())
+    stats, mism = K.h1_suite(seed, count, maxlen, shards=16 if tier == "thorough" else 8, extra_hist=corpus_text(),
+                             exhaustive=(tier == "thorough"))
     report["h1"] = stats
     viols = []
     seen = set()
@@ -295,6 +296,7 @@ def run_h2(prop, tier, seed, report):
                 "HBL": "the wait list is accessed by two threads with no happens-before between them (the lock does not order its critical sections)",
                 "stuck": "an operation is blocked for ever although its counterpart finished",
                 "ledger": "a tagged value was not received / destroyed / handed back exactly once",
+                "deadline": "a timed call reported Timeout before its deadline",
                 "corrupt": "a payload arrived corrupted"}[f["kind"]]
         viols.append({"witness": True, "suite": "H2", "kind": f["kind"], "program": f["program"], "schedule": f["schedule"],
                       "monitor": ["%s: %s" % (what, f["message"])], "trace_tail": f["trace_tail"],
@@ -485,6 +487,8 @@ def run_check(prop, tier, seed):
         "h1_result_kinds": h1.get("results", {}),
         "h1_distinct_outcome_lines": h1.get("distinct_outcome_lines", 0),
         "h1_divergences": report.get("h1_divergences", 0),
+        "h1_exhaustive": h1.get("exhaustive", {}),
+        "h1_enumerated_identical": h1.get("enumerated_identical", 0),
         "h1_divergences_outside_cone": report.get("h1_divergences_outside_cone", 0),
         "theorems": thms,
         "build_cached": getattr(b, "cached", False),
